@@ -154,6 +154,10 @@ def mk_eq(a, b):
     if a.is_const and b.is_const:
         return const(a.val == b.val)
     assert a.sort == b.sort, ('eq sorts', a.sort, b.sort, a, b)
+    if a.sort == STR:
+        r = _str_eq(a, b)
+        if r is not None:
+            return r
     if a.sort == BOOL:
         if a.is_const:
             return b if a.val else mk_not(b)
@@ -330,7 +334,170 @@ def mk_len(a):
     return T('str.len', (a,), INT)
 
 
+def _known_len(t):
+    if t.is_const:
+        return len(t.val)
+    if t.op == 'str.from_code_ok':
+        return 1
+    return None
+
+
+def _char_parts(t):
+    """t as a list of single-character terms, or None."""
+    parts = t.args if t.op == 'str.++' else (t,)
+    out = []
+    for p in parts:
+        if p.is_const:
+            out.extend(const(ch) for ch in p.val)
+        elif p.op == 'str.from_code_ok':
+            out.append(p)
+        else:
+            return None
+    return out
+
+
+def _parts(t):
+    out = []
+    for p in (t.args if t.op == 'str.++' else (t,)):
+        if p.is_const:
+            out.extend(const(ch) for ch in p.val)
+        else:
+            out.append(p)
+    return out
+
+
+def _is_char(p):
+    return (p.is_const and len(p.val) == 1) or p.op == 'str.from_code_ok'
+
+
+def _min_len(p):
+    if p.is_const:
+        return len(p.val)
+    if p.op == 'str.from_code_ok':
+        return 1
+    if p.op == 'app' and (p.val == 'dec' or p.val.startswith('udigits') or p.val.startswith('ldigits')):
+        return 1
+    return 0
+
+
+LETTER_CODES = set()      # code-point terms known to denote ASCII letters (registered by ColT / upper())
+
+
+def _sep_free(p, ch):
+    """Part `p` certainly does not contain the character ch (ch is not a letter or digit)."""
+    if p.is_const:
+        return ch not in p.val
+    if p.op == 'str.from_code_ok':
+        k = p.args[0]
+        return k in LETTER_CODES or (k.is_const and chr(k.val) != ch)
+    if p.op == 'app' and (p.val == 'dec' or p.val.startswith('udigits') or p.val.startswith('ldigits') or p.val == 'zeros'):
+        return ch not in '-0123456789abcdefABCDEF'
+    return False
+
+
+def _split_last(parts, ch):
+    """(prefix parts, suffix parts) around the last occurrence of the constant character ch, where
+    the suffix is certainly ch-free; None if not determined."""
+    for i in range(len(parts) - 1, -1, -1):
+        p = parts[i]
+        if p.is_const and p.val == ch:
+            return parts[:i], parts[i + 1:]
+        if not _sep_free(p, ch):
+            return None
+    return ('none', parts)      # the whole string is ch-free
+
+
+def _join(parts):
+    parts = _merge_consts(parts)
+    if not parts:
+        return const('')
+    return parts[0] if len(parts) == 1 else T('str.++', parts, STR)
+
+
+def _sep_rule(pa, pb):
+    """Unique split at the last separator: X ch R == Y ch Q with R, Q ch-free  <=>  X == Y and R == Q;
+    a ch-free string never equals one that contains ch.  (Theorem of the free monoid.)"""
+    for ch in ('!', ':'):
+        sa, sb = _split_last(pa, ch), _split_last(pb, ch)
+        if sa is None or sb is None:
+            continue
+        if sa[0] == 'none' and sb[0] == 'none':
+            continue
+        if sa[0] == 'none' or sb[0] == 'none':
+            return FALSE
+        if not sa[0] and not sb[0] and not sa[1] and not sb[1]:
+            continue
+        return mk_and(mk_eq(_join(sa[0]), _join(sb[0])), mk_eq(_join(sa[1]), _join(sb[1])))
+    return None
+
+
+def _str_eq(a, b):
+    """Cancellation on both ends of two concatenations (sound and complete: the free monoid is
+    cancellative); single characters are compared by code point.  None = no simplification."""
+    pa, pb = _parts(a), _parts(b)
+    conj = []
+    changed = False
+    for side in (0, -1):
+        while pa and pb:
+            x, y = pa[side], pb[side]
+            if x == y:
+                pass
+            elif _is_char(x) and _is_char(y):
+                e = mk_eq(_code_of(x), _code_of(y))
+                if e.is_const and not e.val:
+                    return FALSE
+                conj.append(e)
+            else:
+                break
+            pa.pop(side)
+            pb.pop(side)
+            changed = True
+    if pa and pb:
+        r = _sep_rule(pa, pb)
+        if r is not None:
+            return mk_and(*(conj + [r]))
+    if not pa and not pb:
+        return mk_and(*conj)
+    if not pa or not pb:
+        rest = pa or pb
+        if any(_min_len(p) > 0 for p in rest):
+            return FALSE
+        changed = True
+        return mk_and(*(conj + [T('=', (p, const('')), BOOL) for p in rest]))
+    if not changed:
+        return None
+    ra = pa[0] if len(pa) == 1 else T('str.++', _merge_consts(pa), STR)
+    rb = pb[0] if len(pb) == 1 else T('str.++', _merge_consts(pb), STR)
+    if ra.is_const and rb.is_const:
+        return mk_and(*(conj + [const(ra.val == rb.val)]))
+    return mk_and(*(conj + [T('=', (ra, rb), BOOL)]))
+
+
+def _merge_consts(parts):
+    out = []
+    for p in parts:
+        if p.is_const and out and out[-1].is_const:
+            out[-1] = const(out[-1].val + p.val)
+        else:
+            out.append(p)
+    return out
+
+
+def _code_of(ch):
+    return const(ord(ch.val)) if ch.is_const else ch.args[0]
+
+
 def mk_strop(op, args, sort):
+    if op == 'str.at' and args[1].is_const:
+        parts = args[0].args if args[0].op == 'str.++' else (args[0],)
+        pos, i = 0, args[1].val
+        for p_ in parts:
+            n = _known_len(p_)
+            if n is None:
+                break
+            if pos <= i < pos + n:
+                return const(p_.val[i - pos]) if p_.is_const else p_
+            pos += n
     if all(x.is_const for x in args):
         try:
             return const(_EVAL[op](*[x.val for x in args]))
